@@ -195,7 +195,7 @@ def run(ctx):
                 "(configuration, parameter set, walker); non-trivial & distinct = distinct non-zero reference overlap values")
     ctx.assume("trial parameters real (the library documents real coefficients); CI-kind beta/GHF bases orthogonal")
     ctx.assume("grid decides the polynomial identity exactly for implementations of degree <= 1 (unrestricted) / <= 2 (restricted) per walker entry; dense exhaustive test otherwise")
-    ctx.pmap(job, configs(ctx.tier, ctx.seed))
+    ctx.pmap(job, configs(ctx.tier, ctx.seed), tasks_per_child=2)
     ctx.require_guard("grid_points_u", "grid_points_r", "rdm1_checked")
 
 
